@@ -379,3 +379,15 @@ func (lr *LexRef) ScanAll(src []byte, extraEOF int) []Tok {
 	}
 	return out
 }
+
+// ClassUsed reports whether class k (of Bounds) is matched by some literal or range of the grammar (as opposed to
+// runes only '.' or nothing can match).
+func (lr *LexRef) ClassUsed(k int) bool {
+	r := lr.Bounds[k]
+	for _, lf := range lr.leaves {
+		if lf.k != 'd' && lf.lo <= r && r <= lf.hi {
+			return true
+		}
+	}
+	return false
+}
